@@ -62,6 +62,7 @@ type Path struct {
 	status    string
 	statusMsg string
 	allocHook func(*Term)
+	prefixChecked bool
 	notes     []string
 	cross     []CrossQuery
 }
@@ -96,6 +97,7 @@ type HarnessResult struct {
 	CrossQueries []CrossQuery
 	Outs         [][]string
 	SchedStates, SchedTransitions, SchedValidated int
+	Unwinds             map[string]int
 	MaxStepsPath        int64
 	StoppedOnViolations bool
 	RandTape    []TapeEntry
@@ -270,6 +272,12 @@ func (ex *Explorer) collectPath(in *Interp) {
 	if strings.HasPrefix(p.status, "engine") {
 		r.EngineErrors[p.statusMsg]++
 	}
+	if p.status == "end:unwind" || p.status == "end:infeasible" {
+		if r.Unwinds == nil {
+			r.Unwinds = map[string]int{}
+		}
+		r.Unwinds[p.statusMsg]++
+	}
 	for l := range p.reached {
 		r.Reached[l]++
 	}
@@ -372,6 +380,18 @@ func (in *Interp) syncPC() {
 	p := in.path
 	if in.solver.Level() == 0 {
 		in.solver.Push()
+	}
+	if !p.prefixChecked && len(p.prefix) > 0 && !p.replaying() {
+		// the replayed prefix must be satisfiable: guards against any
+		// nondeterminism between the run that queued it and this one
+		p.prefixChecked = true
+		for p.sent < len(p.pc) {
+			in.solver.Assert(p.pc[p.sent])
+			p.sent++
+		}
+		if in.solver.Check() == Unsat {
+			panic(engineErr{"replayed prefix is infeasible (engine nondeterminism)"})
+		}
 	}
 	for p.sent < len(p.pc) {
 		in.solver.Assert(p.pc[p.sent])
@@ -795,6 +815,16 @@ func (in *Interp) runHarness(fn *ssa.Function) {
 			case "blocked", "deadlock":
 				if in.param("allow_"+r.status, 0) == 0 && !p.replaying() {
 					in.recordViolation(r.status, r.status, r.msg, nil)
+				}
+			case "steps":
+				// no symbolic branch bounded this path: it looks like a loop
+				// that does not terminate; confirmed natively by a timeout
+				if !p.replaying() {
+					in.recordViolation("blocked", "step-budget-exceeded-(nontermination)", r.msg, nil)
+				}
+			case "unwind":
+				if in.param("debug_unwind", 0) == 1 && !p.replaying() {
+					in.recordViolation("blocked", "unwind", r.msg, nil)
 				}
 			}
 		case engineErr:
